@@ -79,7 +79,7 @@ def _from_scope_leaves(node, out):
         case sql.Select():
             return
         case LeafRelation():
-            out.append(node.name)
+            out.append(("leaf", id(node.payload)))  # the table, not the name (two leaves may share a name)
         case UnaryOperationRelation():
             _from_scope_leaves(node.target, out)
         case BinaryOperationRelation():
